@@ -130,7 +130,8 @@ func init() {
 					hh = "[" + h + "]"
 				}
 				// acceptable forms
-				for _, cl := range []string{"https://" + hh, "http://" + hh, "https://" + hh + ":444", "ftp://" + hh + "/path?x#y", "https://user@" + hh, "https://sub." + hh, "https://a.b." + hh + ":1"} {
+				for _, cl := range []string{"https://" + hh, "http://" + hh, "https://" + hh + ":444", "ftp://" + hh + "/path?x#y", "https://user@" + hh, "https://sub." + hh, "https://a.b." + hh + ":1",
+					"https://" + hh + "#frag", "https://" + hh + "?q=1", "https://" + hh + "/#frag", "https://" + hh + ":443#f", "https://user:pw@" + hh + ":1/p", "https://" + hh + "/", "//" + hh, "https://" + hh + "#"} {
 					if strings.Contains(h, ":") && strings.Contains(cl, "sub.") || strings.Contains(h, ":") && strings.Contains(cl, "a.b.") {
 						continue
 					}
